@@ -45,8 +45,11 @@ def ledger_flow(rng, tmp, legacy, alter, wrong_root=False, **kw):
     import types
     ud = kw.pop("ud", UD)
     reattest = kw.pop("reattest", False)
+    ts = kw.pop("timestamp", None)
     dev = genuine.GenuineLedger(rng, legacy_signer=legacy, alter=alter, **kw)
-    dev.expected_ud = ud
+    if ts is not None:
+        dev.timestamp = ts
+    dev.expected_ud = ud[2:] if ud.startswith("0x") else ud
     world = env.World(device=dev)
     env.install_transport(world)
     Platform.set("Ledger")
@@ -109,7 +112,10 @@ def sgx_flow(rng, tmp, alter, wrong_root=False, root_variant=None, **kw):
     import admin.misc as misc
     from comm.platform import Platform
     import types
+    ts = kw.pop("timestamp", None)
     dev = genuine.GenuineSgx(rng, alter=alter, **kw)
+    if ts is not None:
+        dev.timestamp = ts
     world = env.World(device=dev)
     env.install_transport(world)
     Platform.set("SGX", {"sgx_host": "h", "sgx_port": 1})
@@ -187,6 +193,11 @@ def run(ctx):
                            (False, dict(ud="37" + gen.rbytes(rng, 31).hex())),
                            (True, dict(ud="3039" + gen.rbytes(rng, 30).hex())),
                            (False, dict(ud=gen.rbytes(rng, 32).hex())),
+                           (False, dict(ud="00" + gen.rbytes(rng, 31).hex())),
+                           (True, dict(ud="0x0" + gen.rbytes(rng, 32).hex()[1:])),
+                           # blockchain state at the ends of its ranges
+                           (False, dict(timestamp=2 ** 63)), (False, dict(timestamp=2 ** 64 - 1)),
+                           (False, dict(timestamp=0)),
                            (False, dict(reattest=True)), (True, dict(reattest=True))):
             stage, err, out, dev = ledger_flow(rng, tmp, legacy, None, **kw)
             note(res, stage)
@@ -230,8 +241,8 @@ def run(ctx):
             if stage == "ok":
                 res["violations"].append({"key": "C15:ledger-wrong-root-accepted", "what": "verified under a "
                                           "different root of trust"})
-        for ncerts, auth_len in ((2, None), (3, 1), (3, 1000), (2, 0)):
-            stage, err, out, dev = sgx_flow(rng, tmp, None, ncerts=ncerts, auth_len=auth_len)
+        for ncerts, auth_len, ts in ((2, None, None), (3, 1, 2 ** 63), (3, 1000, 2 ** 64 - 1), (2, 0, 0)):
+            stage, err, out, dev = sgx_flow(rng, tmp, None, ncerts=ncerts, auth_len=auth_len, timestamp=ts)
             note(res, stage)
             if stage != "ok":
                 res["violations"].append({"key": "C15:sgx-genuine-fails", "what": "genuine SGX device (certs=%d, "
